@@ -3,6 +3,7 @@ package main
 import (
 	"go/ast"
 	"go/token"
+	"sort"
 	"strings"
 )
 
@@ -12,6 +13,15 @@ import (
 //     pattern = "<pre>" + pattern + "<suf>"
 //     pattern = strings.ReplaceAll(pattern, "<old>", "<new>")   (any number)
 //     return pattern
+// Cache protocol of Globber.walkDir (the walkedDirs memo; Proof/C21_cache.v cache_protocol_regenerated):
+//     func (g *Globber) walkDir(<params>) (walkedDir, error) {
+//         if v, ok := g.walkedDirs[<lookup key>]; ok { return v, nil }
+//         ...                                               (no other access to g.walkedDirs)
+//         g.walkedDirs[<store key>] = v'
+//         return v', nil
+//     }
+// emitted: the parameter names, the identifiers of both key expressions, the Globber fields walkDir touches, and
+// every (field, function) pair of the file in which a field of a Globber is assigned.
 func init() {
 	targets["GlobRegex"] = func() string {
 		_, f := parseFile("src/fs/glob.go")
@@ -92,6 +102,7 @@ func init() {
 			})
 			return out
 		}
+		wp, wl, ws, wf, gw := globberCacheProtocol(f)
 		var matcherLits []string
 		for _, l := range lits("patternToMatcher") {
 			if !strings.Contains(l, "%") { // error message formats are not part of the behaviour
@@ -104,6 +115,209 @@ func init() {
 			"Definition regex_rewrites : list (string * string) := [" + strings.Join(pairs, "; ") + "].\n" +
 			"Definition matcher_literals : list string := " + coqStringList(matcherLits) + ".\n" +
 			"Definition hidden_literals : list string := " + coqStringList(lits("isHidden")) + ".\n" +
-			"Definition walk_literals : list string := " + coqStringList(walkLits()) + ".\n"
+			"Definition walk_literals : list string := " + coqStringList(walkLits()) + ".\n" +
+			"Definition walkdir_params : list string := " + coqStringList(wp) + ".\n" +
+			"Definition walkdir_lookup_key : list string := " + coqStringList(wl) + ".\n" +
+			"Definition walkdir_store_key : list string := " + coqStringList(ws) + ".\n" +
+			"Definition walkdir_fields : list string := " + coqStringList(wf) + ".\n" +
+			"Definition globber_field_writers : list string := " + coqStringList(gw) + ".\n"
 	}
+}
+
+func globberCacheProtocol(f *ast.File) (params, lookupKey, storeKey, fields, writers []string) {
+	fd := findFunc(f, "Globber", "walkDir")
+	if fd.Recv == nil || len(fd.Recv.List) != 1 || len(fd.Recv.List[0].Names) != 1 {
+		failShape("walkDir: expected a named receiver")
+	}
+	recv := fd.Recv.List[0].Names[0].Name
+	if fd.Type.Params != nil {
+		for _, fl := range fd.Type.Params.List {
+			if len(fl.Names) == 0 {
+				failShape("walkDir: unnamed parameter")
+			}
+			for _, n := range fl.Names {
+				params = append(params, n.Name)
+			}
+		}
+	}
+	isCache := func(e ast.Expr) (ast.Expr, bool) { // recv.walkedDirs[key] -> key
+		ix, ok := e.(*ast.IndexExpr)
+		if !ok {
+			return nil, false
+		}
+		sel, ok := ix.X.(*ast.SelectorExpr)
+		if !ok || sel.Sel.Name != "walkedDirs" {
+			return nil, false
+		}
+		if x, ok := sel.X.(*ast.Ident); !ok || x.Name != recv {
+			return nil, false
+		}
+		return ix.Index, true
+	}
+	idents := func(e ast.Expr) []string {
+		out := []string{}
+		ast.Inspect(e, func(n ast.Node) bool {
+			switch x := n.(type) {
+			case *ast.Ident:
+				out = append(out, x.Name)
+			case *ast.BasicLit:
+				out = append(out, x.Value)
+			case *ast.CallExpr, *ast.BinaryExpr, *ast.CompositeLit:
+				out = append(out, "<expr>") // a computed key is not the shape the model was written from
+			}
+			return true
+		})
+		return out
+	}
+	isNil := func(e ast.Expr) bool { id, ok := e.(*ast.Ident); return ok && id.Name == "nil" }
+	isIdent := func(e ast.Expr, name string) bool { id, ok := e.(*ast.Ident); return ok && id.Name == name }
+	stmts := fd.Body.List
+	if len(stmts) < 4 {
+		failShape("walkDir: body too short")
+	}
+	// the lookup
+	ifs, ok := stmts[0].(*ast.IfStmt)
+	if !ok || ifs.Else != nil || ifs.Init == nil {
+		failShape("walkDir: first statement is not `if v, ok := cache[key]; ok {...}`")
+	}
+	as, ok := ifs.Init.(*ast.AssignStmt)
+	if !ok || as.Tok != token.DEFINE || len(as.Lhs) != 2 || len(as.Rhs) != 1 {
+		failShape("walkDir: lookup is not `v, ok := cache[key]`")
+	}
+	key, ok := isCache(as.Rhs[0])
+	if !ok {
+		failShape("walkDir: lookup does not read %s.walkedDirs[...]", recv)
+	}
+	lookupKey = idents(key)
+	v, okv := as.Lhs[0].(*ast.Ident)
+	present, okp := as.Lhs[1].(*ast.Ident)
+	if !okv || !okp || !isIdent(ifs.Cond, present.Name) || len(ifs.Body.List) != 1 {
+		failShape("walkDir: lookup condition / body shape")
+	}
+	ret, ok := ifs.Body.List[0].(*ast.ReturnStmt)
+	if !ok || len(ret.Results) != 2 || !isIdent(ret.Results[0], v.Name) || !isNil(ret.Results[1]) {
+		failShape("walkDir: a cache hit does not `return v, nil`")
+	}
+	// the store: second-last statement, then `return v', nil`
+	st, ok := stmts[len(stmts)-2].(*ast.AssignStmt)
+	if !ok || st.Tok != token.ASSIGN || len(st.Lhs) != 1 || len(st.Rhs) != 1 {
+		failShape("walkDir: second-last statement is not the cache store")
+	}
+	skey, ok := isCache(st.Lhs[0])
+	stored, oks := st.Rhs[0].(*ast.Ident)
+	if !ok || !oks {
+		failShape("walkDir: second-last statement is not `%s.walkedDirs[key] = v`", recv)
+	}
+	storeKey = idents(skey)
+	last, ok := stmts[len(stmts)-1].(*ast.ReturnStmt)
+	if !ok || len(last.Results) != 2 || !isIdent(last.Results[0], stored.Name) || !isNil(last.Results[1]) {
+		failShape("walkDir: does not end with `return <stored value>, nil`")
+	}
+	// the stored value is declared empty right after the lookup, and an error returns before the store
+	if ds, ok := stmts[1].(*ast.AssignStmt); !ok || ds.Tok != token.DEFINE || len(ds.Lhs) != 1 || !isIdent(ds.Lhs[0], stored.Name) {
+		failShape("walkDir: second statement does not declare the walked value")
+	} else if cl, ok := ds.Rhs[0].(*ast.CompositeLit); !ok || len(cl.Elts) != 0 {
+		failShape("walkDir: the walked value does not start empty")
+	}
+	if es, ok := stmts[len(stmts)-3].(*ast.IfStmt); !ok || len(es.Body.List) != 1 {
+		failShape("walkDir: no error check before the cache store")
+	} else if _, ok := es.Body.List[0].(*ast.ReturnStmt); !ok {
+		failShape("walkDir: the error check before the cache store does not return")
+	}
+	// no other access to the cache inside walkDir
+	n := 0
+	seen := map[string]bool{}
+	ast.Inspect(fd.Body, func(nd ast.Node) bool {
+		if sel, ok := nd.(*ast.SelectorExpr); ok {
+			if x, ok := sel.X.(*ast.Ident); ok && x.Name == recv {
+				seen[sel.Sel.Name] = true
+				if sel.Sel.Name == "walkedDirs" {
+					n++
+				}
+			}
+		}
+		return true
+	})
+	if n != 2 {
+		failShape("walkDir: %d accesses to walkedDirs, expected the lookup and the store", n)
+	}
+	for k := range seen {
+		fields = append(fields, k)
+	}
+	sort.Strings(fields)
+	// who assigns to a field of a Globber, anywhere in the file
+	gf := map[string]bool{}
+	for _, d := range f.Decls {
+		gd, ok := d.(*ast.GenDecl)
+		if !ok {
+			continue
+		}
+		for _, sp := range gd.Specs {
+			ts, ok := sp.(*ast.TypeSpec)
+			if !ok || ts.Name.Name != "Globber" {
+				continue
+			}
+			stt, ok := ts.Type.(*ast.StructType)
+			if !ok {
+				failShape("Globber is not a struct")
+			}
+			for _, fl := range stt.Fields.List {
+				for _, nm := range fl.Names {
+					gf[nm.Name] = true
+				}
+			}
+		}
+	}
+	if len(gf) == 0 {
+		failShape("type Globber not found")
+	}
+	ws := map[string]bool{}
+	for _, d := range f.Decls {
+		fn, ok := d.(*ast.FuncDecl)
+		if !ok || fn.Body == nil {
+			continue
+		}
+		target := func(e ast.Expr) {
+			for {
+				switch x := e.(type) {
+				case *ast.IndexExpr:
+					e = x.X
+					continue
+				case *ast.ParenExpr:
+					e = x.X
+					continue
+				case *ast.StarExpr:
+					e = x.X
+					continue
+				case *ast.SelectorExpr:
+					if gf[x.Sel.Name] {
+						ws[x.Sel.Name+":"+fn.Name.Name] = true
+					}
+				}
+				return
+			}
+		}
+		ast.Inspect(fn.Body, func(nd ast.Node) bool {
+			switch x := nd.(type) {
+			case *ast.AssignStmt:
+				if x.Tok != token.DEFINE {
+					for _, l := range x.Lhs {
+						target(l)
+					}
+				}
+			case *ast.IncDecStmt:
+				target(x.X)
+			case *ast.CallExpr:
+				if id, ok := x.Fun.(*ast.Ident); ok && (id.Name == "delete" || id.Name == "clear") && len(x.Args) > 0 {
+					target(x.Args[0])
+				}
+			}
+			return true
+		})
+	}
+	for k := range ws {
+		writers = append(writers, k)
+	}
+	sort.Strings(writers)
+	return
 }
